@@ -7,11 +7,11 @@
 package qnet
 
 import (
-	"strings"
 	"context"
 	"errors"
 	"net"
 	"os"
+	"strings"
 	"sync"
 	"time"
 )
